@@ -81,7 +81,7 @@ PROPS["C02"] = dict(
 PROPS["C15"] = dict(
     modules=["Sth.Props.C01", "Sth.Props.C08", "Sth.Props.C15"],
     theorems=list(CORE_RL) + ['Sth.C15_adapter_refines_contract', 'Sth.C15_init', 'Sth.C15_adapter_calls_store', 'Sth.C15_map_is_contract', 'Sth.C15_put_then_get', 'Sth.C15_has_size_agree_with_get', 'Sth.C15_delete_not_found', 'Sth.C15_duplicate_put_silent', 'Sth.C15_unknown_cid_not_found', 'Sth.C15_alias_same_block', 'Sth.C15_alias_delete', 'Sth.C15_hash_on_read', 'Sth.C15_hash_on_read_enabled', 'Sth.C15_hash_on_read_disabled', 'Sth.C15_malformed_cid', 'Sth.C15_flag_after_toggle', 'Sth.C15_cancelled_ctx', 'Sth.C15_cancelled_ctx_run', 'Sth.C15_cancelled_ctx_contract'],
-    runs=[dict(engine="bs", quick=400, thorough=20000, nontrivial=["duplicate-put", "hash-mismatch-rejected", "hash-mismatch-unchecked", "cancelled", "delete", "empty-block"])],
+    runs=[dict(engine="bs", quick=400, thorough=20000, nontrivial=["duplicate-put", "hash-mismatch-rejected", "hash-mismatch-unchecked", "cancelled", "delete", "empty-block", "reopen"])],
     rule="sequences of Put/PutMany/Get/Has/GetSize/DeleteBlock/HashOnRead on the real HashedBlockstore over blocks of 0..4 KiB, "
          "CIDv0/v1, codecs raw/dag-pb/dag-cbor, sha2-256/sha2-512/blake2b-256/identity, aliases sharing a multihash, unknown CIDs, "
          "live and cancelled contexts, blocks whose bytes do not hash to their CID; every output is compared with the Lean adapter "
@@ -148,7 +148,7 @@ PROPS["C06"] = dict(
                               "Sth.C06_window_weak_compare_resurrects", "Sth.C06_refused_path_records_old_twice", "Sth.C06_window_example_hypotheses",
                               "Sth.C06_handover_split", "Sth.C06_handover_window_invisible", "Sth.C06_handover_flush_succeeds", "Sth.C06_handover_window_example",
                               "Sth.C06_igc_free_verdict_stable", "Sth.C06_igc_late_mark_safe", "Sth.C06_igc_busy_verdict_not_stable"],
-    runs=[dict(engine="sched", quick=500, thorough=20000, extra=["-profile", "c06"], nontrivial=["gc-overlaps-call", "collector-window"]),
+    runs=[dict(engine="sched", quick=500, thorough=20000, extra=["-profile", "c06"], nontrivial=["gc-overlaps-call", "collector-window", "flush-window"]),
           # the schedules in which the collectors run BETWEEN calls (every schedule of the statement includes them): the sequential engine
           # with both collectors over several cycles, byte-compared with the model; its directed corpus holds the multi-cycle histories
           # (merge of a deleted record, resumed cycle) that a single scheduled cycle does not reach
